@@ -691,21 +691,202 @@ Proof.
   split; [vm_compute; auto|vm_compute; discriminate].
 Qed.
 
-(* ---------- what the correspondence evaluates: a reproduced behaviour of conformant code satisfies the Spec ---------- *)
-Lemma run_close_refl_eq l1 l2 l3 : l1 = l2 -> runs_close l1 l3 = runs_close l2 l3.
-Proof. intros ->. reflexivity. Qed.
+(* ---------- task.wait_until with an overall timeout: the simulation lifts through [with_timeout] ---------- *)
+Section SimT.
+  Context {A B : Type} (ma : machine A) (mb : machine B) (R : A -> B -> Prop) (okin : hin -> bool) (T : option Z).
+  Hypothesis due_eq : forall a b, R a b -> m_due ma a = m_due mb b.
+  Hypothesis post_eq : forall a b t e, R a b -> m_due mb b = Some e -> m_post ma a t = m_post mb b t.
+  Hypothesis expire_sim : forall a b e, R a b -> m_due mb b = Some e ->
+    snd (m_expire ma a e) = snd (m_expire mb b e) /\ R (fst (m_expire ma a e)) (fst (m_expire mb b e)).
+  Hypothesis step_sim : forall a b t i, R a b -> okin i = true -> (forall e, m_due mb b = Some e -> t < e) ->
+    snd (m_step ma a t i) = snd (m_step mb b t i) /\ R (fst (m_step ma a t i)) (fst (m_step mb b t i)).
 
+  Definition RT (a : A * bool) (b : B * bool) : Prop := R (fst a) (fst b) /\ snd a = snd b.
+
+  Lemma wt_is_tmo_eq a b : RT a b -> wt_is_tmo ma T a = wt_is_tmo mb T b.
+  Proof. intros [HR _]. unfold wt_is_tmo. rewrite (due_eq _ _ HR). reflexivity. Qed.
+
+  Lemma wt_due_eq a b : RT a b -> wt_due ma T a = wt_due mb T b.
+  Proof. intros [HR Hl]. unfold wt_due. rewrite Hl, (due_eq _ _ HR). reflexivity. Qed.
+
+  (* when the hold timer is what is due, the inner machine has that timer pending *)
+  Lemma wt_inner_due b e : wt_due mb T b = Some e -> wt_is_tmo mb T b = false -> m_due mb (fst b) = Some e.
+  Proof.
+    unfold wt_due, wt_is_tmo. destruct (snd b); [|discriminate].
+    destruct T as [tm|], (m_due mb (fst b)) as [e0|]; try discriminate.
+    - destruct (e0 <? tm); [intros [= <-] _; reflexivity|discriminate].
+    - intros [= <-] _. reflexivity.
+  Qed.
+
+  Lemma wt_post_eq a b t e : RT a b -> wt_due mb T b = Some e -> wt_post ma T a t = wt_post mb T b t.
+  Proof.
+    intros HRT Hd. unfold wt_post. rewrite (wt_is_tmo_eq a b HRT).
+    destruct (wt_is_tmo mb T b) eqn:Ht; [reflexivity|].
+    destruct HRT as [HR _]. apply (post_eq _ _ t e HR). apply wt_inner_due; assumption.
+  Qed.
+
+  Lemma wt_expire_sim a b e : RT a b -> wt_due mb T b = Some e ->
+    snd (wt_expire ma T a e) = snd (wt_expire mb T b e) /\ RT (fst (wt_expire ma T a e)) (fst (wt_expire mb T b e)).
+  Proof.
+    intros HRT Hd. unfold wt_expire. rewrite (wt_is_tmo_eq a b HRT).
+    destruct (wt_is_tmo mb T b) eqn:Ht.
+    - cbn [fst snd]. destruct HRT as [HR _]. split; [reflexivity|]. split; [exact HR|reflexivity].
+    - destruct HRT as [HR _]. destruct (expire_sim _ _ e HR (wt_inner_due b e Hd Ht)) as [Ho HR'].
+      destruct (m_expire ma (fst a) e) as [a' oa]. destruct (m_expire mb (fst b) e) as [b' ob].
+      cbn [fst snd] in *. split; [exact Ho|]. split; [exact HR'|reflexivity].
+  Qed.
+
+  Lemma wt_expire_clears b e : wt_due mb T b = Some e -> wt_due mb T (fst (wt_expire mb T b e)) = None.
+  Proof.
+    intros _. unfold wt_expire. destruct (wt_is_tmo mb T b); [reflexivity|].
+    destruct (m_expire mb (fst b) e). reflexivity.
+  Qed.
+
+  Lemma wt_step_sim a b t i : RT a b -> okin i = true -> (forall e, wt_due mb T b = Some e -> t < e) ->
+    snd (wt_step ma a t i) = snd (wt_step mb b t i) /\ RT (fst (wt_step ma a t i)) (fst (wt_step mb b t i)).
+  Proof.
+    intros [HR Hl] Hi Hlt. unfold wt_step. rewrite Hl. destruct (snd b) eqn:Lb.
+    - assert (Hlt' : forall e, m_due mb (fst b) = Some e -> t < e).
+      { intros e He. unfold wt_due in Hlt. rewrite Lb, He in Hlt. destruct T as [tm|].
+        - destruct (e <? tm) eqn:L; specialize (Hlt _ eq_refl); lia.
+        - apply Hlt. reflexivity. }
+      destruct (step_sim _ _ t i HR Hi Hlt') as [Ho HR'].
+      destruct (m_step ma (fst a) t i) as [a' oa]. destruct (m_step mb (fst b) t i) as [b' ob].
+      cbn [fst snd] in *. split; [exact Ho|]. split; [exact HR'|reflexivity].
+    - cbn [fst snd]. split; [reflexivity|]. split; [exact HR|congruence].
+  Qed.
+
+  Lemma run_machine_sim_t ia ib h : snd ia = snd ib -> R (fst ia) (fst ib) ->
+    forallb (fun x => okin (snd x)) h = true ->
+    tie_free (with_timeout mb T) (fst (post_expire (with_timeout mb T) (fst (lift_ini ib)) 0)) h = true ->
+    run_machine (with_timeout ma T) (lift_ini ia) h = run_machine (with_timeout mb T) (lift_ini ib) h.
+  Proof.
+    intros Ho HR Hok Htf.
+    apply (run_machine_sim (with_timeout ma T) (with_timeout mb T) RT okin);
+      [exact wt_due_eq|exact wt_post_eq|exact wt_expire_sim|exact wt_expire_clears|exact wt_step_sim
+      |exact Ho|split; [exact HR|reflexivity]|exact Hok|exact Htf].
+  Qed.
+End SimT.
+
+(* pairwise no_ties_t implies tie-freeness of the Spec machine with the timeout *)
+Lemma sp_wt_pre_pend c T prev s t : pend_in prev (fst s) ->
+  pend_in prev (fst (fst (pre_expire (with_timeout (sp_machine c) T) s t))).
+Proof.
+  intros H. unfold pre_expire. cbn [m_due m_expire with_timeout].
+  destruct (wt_due (sp_machine c) T s) as [e|]; [|exact H]. destruct (e <? t); [|exact H].
+  unfold wt_expire. destruct (wt_is_tmo (sp_machine c) T s); [exact H|].
+  cbn [m_expire sp_machine]. destruct (sp_expire (fst s) e) eqn:E. cbn [fst].
+  change s0 with (fst (s0, l)). rewrite <- E. apply sp_expire_pend.
+Qed.
+
+Lemma sp_wt_post_pend c T prev s t : pend_in prev (fst s) ->
+  pend_in prev (fst (fst (post_expire (with_timeout (sp_machine c) T) s t))).
+Proof.
+  intros H. unfold post_expire. cbn [m_due m_post m_expire with_timeout].
+  destruct (wt_due (sp_machine c) T s) as [e|]; [|exact H]. destruct (wt_post (sp_machine c) T s t); [|exact H].
+  unfold wt_expire. destruct (wt_is_tmo (sp_machine c) T s); [exact H|].
+  cbn [m_expire sp_machine]. destruct (sp_expire (fst s) e) eqn:E. cbn [fst].
+  change s0 with (fst (s0, l)). rewrite <- E. apply sp_expire_pend.
+Qed.
+
+Lemma sp_wt_step_pend c T prev s t i : pend_in prev (fst s) ->
+  pend_in (t :: prev) (fst (fst (m_step (with_timeout (sp_machine c) T) s t i))).
+Proof.
+  intros H. cbn [m_step with_timeout]. unfold wt_step. destruct (snd s).
+  - cbn [m_step sp_machine]. destruct (sp_step c (fst s) t i) eqn:E. cbn [fst].
+    change s0 with (fst (s0, l)). rewrite <- E. apply sp_step_pend. exact H.
+  - cbn [fst]. apply pend_in_mono. exact H.
+Qed.
+
+Definition tmo_far (T : option Z) (t : Z) : bool := match T with Some tm => far (t - tm) | None => true end.
+
+Lemma no_ties_tie_free_t c T : forall h prev s, pend_in prev (fst s) ->
+  no_ties_aux (cfg_delays c) prev h = true -> forallb (fun x => tmo_far T (fst x)) h = true ->
+  tie_free (with_timeout (sp_machine c) T) s h = true.
+Proof.
+  induction h as [|[t i] r IH]; intros prev s Hp Hn Hf; [reflexivity|].
+  cbn [no_ties_aux] in Hn. apply andb_true_iff in Hn as [Hnow Hn].
+  cbn [forallb fst] in Hf. apply andb_true_iff in Hf as [Hft Hf].
+  cbn [tie_free]. apply andb_true_iff. split.
+  - pose proof (sp_wt_pre_pend c T prev s t Hp) as Hp1.
+    set (s1 := fst (pre_expire (with_timeout (sp_machine c) T) s t)) in *.
+    unfold near_due. cbn [m_due with_timeout]. unfold wt_due.
+    destruct (snd s1); [|reflexivity].
+    assert (Hhold : forall e, sp_due c (fst s1) = Some e -> far (e - t) = true).
+    { intros e He. unfold sp_due in He. destruct (s_pend (fst s1)) as [[t0 a]|] eqn:E; [|discriminate].
+      destruct (hold c) as [hs|] eqn:Eh; [|discriminate]. injection He as <-.
+      unfold pend_in in Hp1. rewrite E in Hp1.
+      rewrite forallb_forall in Hnow. specialize (Hnow t0 Hp1).
+      unfold cfg_delays in Hnow. rewrite Eh in Hnow. cbn [opt_list app forallb] in Hnow.
+      apply andb_true_iff in Hnow as [Hfar _].
+      rewrite (far_opp (t0 + hs - t) (t - t0 - hs)); [exact Hfar|lia]. }
+    cbn [m_due sp_machine].
+    destruct T as [tm|]; cbn [tmo_far] in Hft.
+    + destruct (sp_due c (fst s1)) as [e|] eqn:He.
+      * destruct (e <? tm); rewrite negb_involutive; [apply Hhold; reflexivity|].
+        rewrite (far_opp (tm - t) (t - tm)); [exact Hft|lia].
+      * rewrite negb_involutive. rewrite (far_opp (tm - t) (t - tm)); [exact Hft|lia].
+    + destruct (sp_due c (fst s1)) as [e|] eqn:He; [|reflexivity].
+      rewrite negb_involutive. apply Hhold. reflexivity.
+  - apply (IH (t :: prev)); [|exact Hn|exact Hf].
+    apply sp_wt_post_pend. apply sp_wt_step_pend. apply sp_wt_pre_pend. exact Hp.
+Qed.
+
+Lemma no_ties_t_run_tie_free c T truth h : no_ties_t c T h = true ->
+  tie_free (with_timeout (sp_machine c) T)
+    (fst (post_expire (with_timeout (sp_machine c) T) (fst (lift_ini (sp_init true c truth))) 0)) h = true.
+Proof.
+  intros H. unfold no_ties_t in H. apply andb_true_iff in H as [Hn Ht].
+  apply (no_ties_tie_free_t c T h [0]).
+  - apply sp_wt_post_pend. cbn [lift_ini fst]. apply sp_init_pend.
+  - exact Hn.
+  - destruct T as [tm|]; cbn [tmo_far].
+    + apply andb_true_iff in Ht as [Ht _]. exact Ht.
+    + clear. induction h; cbn; auto.
+Qed.
+
+Theorem timeline_timeout : forall dv c T init h,
+  all_off dv -> sorted_times h = true -> no_ties_t c T h = true -> any_ok c h = true ->
+  wul_runs_t dv c T init h = spec_runs_t c T init h /\ wud_runs_t dv c T init h = spec_runs_t c T init h.
+Proof.
+  intros dv c T init h -> _ Hnt Hany. unfold wul_runs_t, wud_runs_t, spec_runs_t. split; f_equal.
+  - apply (run_machine_sim_t (lg_machine wu_too_soon_cmp c) (sp_machine c) (R_lg c) okall T);
+      [apply lg_due_eq|apply lg_post_eq|apply lg_expire_sim|apply lg_step_sim; apply wu_cmp_ok
+      |apply wul_init_sim|apply wul_init_sim|apply okall_all|apply no_ties_t_run_tie_free; exact Hnt].
+  - apply (run_machine_sim_t (dm_machine no_dev c) (sp_machine c) (R_dm c) (okin c) T);
+      [apply dm_due_eq|apply dm_post_eq|apply dm_expire_sim|apply dm_step_sim
+      |apply dm_init_sim|apply dm_init_sim|apply any_ok_okin; exact Hany|apply no_ties_t_run_tie_free; exact Hnt].
+Qed.
+
+(* which of the two wins: a Spec-level reading.  If the first state run of the Spec without timeout happens strictly
+   before T it is the result, otherwise the result is the timeout at T. (stated on concrete instances below; the
+   general statement is [timeline_timeout] about the machines) *)
+Example timeout_hyps_inhabited :
+  let c := {| check_now := None; hold := Some 2500000; hold_false := None |} in
+  let h := [(1000000, HEval true 1%N); (2000000, HEval true 2%N)] in
+  sorted_times h = true /\ no_ties_t c (Some 2250000) h = true /\ any_ok c h = true
+  /\ spec_runs_t c (Some 2250000) false h = [(2250000, timeout_id)]      (* timeout before the hold ends *)
+  /\ spec_runs_t c (Some 3750000) false h = [(3500000, 1%N)]             (* hold ends first *)
+  /\ spec_runs_t c (Some 1250000) true [] = [(1250000, timeout_id)]      (* hold started by the initial check *)
+  /\ wul_runs_t no_dev c (Some 2250000) false h = [(2250000, timeout_id)]
+  /\ wud_runs_t no_dev c (Some 2250000) false h = [(2250000, timeout_id)].
+Proof. vm_compute. repeat split. Qed.
+
+(* ---------- what the correspondence evaluates: a reproduced behaviour of conformant code satisfies the Spec ---------- *)
 Theorem model_implies_spec : forall c, hcase_model_ok no_dev c = true -> hcase_spec_ok c = true.
 Proof.
   intros c H. unfold hcase_spec_ok. destruct (hcase_in_scope c) eqn:Sc; [|reflexivity]. cbn [negb orb].
   unfold hcase_in_scope in Sc. apply andb_true_iff in Sc as [Sc Ha]. apply andb_true_iff in Sc as [Hs Hn].
   unfold hcase_model_ok in H. apply andb_true_iff in H as [_ H].
-  destruct (timeline no_dev (hc_cfg c) (hc_init c) (hc_hist c) eq_refl Hs Hn Ha) as (E1 & E2 & E3 & E4).
-  unfold spec_of. unfold model_runs in H.
-  destruct (hc_legacy c), (hc_wu c); [rewrite <- E3|rewrite <- E1|rewrite <- E4|rewrite <- E2]; exact H.
+  unfold spec_of. unfold model_runs in H. destruct (hc_wu c).
+  - destruct (timeline_timeout no_dev (hc_cfg c) (hc_tmo c) (hc_init c) (hc_hist c) eq_refl Hs Hn Ha) as (E1 & E2).
+    destruct (hc_legacy c); [rewrite <- E1|rewrite <- E2]; exact H.
+  - unfold no_ties_t in Hn. rewrite andb_true_r in Hn.
+    destruct (timeline no_dev (hc_cfg c) (hc_init c) (hc_hist c) eq_refl Hs Hn Ha) as (E1 & E2 & _).
+    destruct (hc_legacy c); [rewrite <- E1|rewrite <- E2]; exact H.
 Qed.
 
 Example model_implies_spec_hyp_inhabited :
-  hcase_model_ok no_dev {| hc_legacy := false; hc_wu := false; hc_cfg := ex_cfg; hc_init := true; hc_hist := ex_hist;
-                           hc_obs := [(2500000, 0%N); (7500000, 4%N)]; hc_clean := true |} = true.
+  hcase_model_ok no_dev {| hc_legacy := false; hc_wu := false; hc_cfg := ex_cfg; hc_init := true; hc_tmo := None;
+                           hc_hist := ex_hist; hc_obs := [(2500000, 0%N); (7500000, 4%N)]; hc_clean := true |} = true.
 Proof. vm_compute. reflexivity. Qed.
